@@ -15,13 +15,14 @@ TB = [
 ]
 AS = [
     "a k-mer whose hash is exactly 0 is dropped by add_sequence / seq_to_hashes (0 is the in-band skip marker of the iterator): theorems about the hashes offered to a sketch assume hash(w) != 0 for the windows involved. MurmurHash3 of k NUL bytes with seed k is 0 (theorem zero_hash_exhibit), reachable for amino-acid input (known finding C02.4); no ACGT k-mer with hash 0 is known",
-    "translated DNA containing non-ACGT letters: the statement is silent; the code translates such codons to X (or by the ..N wobble entries) and panics on codons that are not valid UTF-8; modelled and compared, not judged by the oracle",
+    "translated DNA with non-ACGT letters IS judged by the oracle for ASCII input: a codon with a letter other than A/C/G/T has no standard translation (X) unless it is xyN of a four-fold degenerate family; the other strand is the reverse complement under A<->T, C<->G, N->N (anything else has no complement); strand symmetry is checked through seq_to_hashes. Not judged: input with bytes >= 0x80 in translated mode (a codon that is not UTF-8 makes Rust panic -> exception; modelled and compared), and kmers_and_hashes on translated input with letters outside ACGTN (screed.rc raises AssertionError; modelled and compared)",
+    "k = 0 is outside the property: DNA sketches hash len+1 empty k-mers (covered by dna_iter_eq_spec), protein-type sketches panic on every input (theorem translate_k0_panics, corpus/C02/panics.ops); ksize*3 beyond uint32 is refused by cffi with OverflowError in MinHash.__init__ (nothing wraps, not modelled)",
 ]
 RULE = ("one base sequence per case (length 0..80 biased to k-2..k+2, 3k-1..3k+1, 0..3; alphabets: ACGT, +N, +IUPAC, amino acids, "
         "odd ASCII incl. NUL/space/newline, multi-byte UTF-8 characters, raw bytes >= 0x80; random lower-casing), "
         "k in {1,2,3,4,7,21,31}, seeds {0,42,1,2^32,2^63,2^64-1}, four molecule types; pushed through hash_murmur, seq_to_hashes "
         "(force x bad_kmers_as_zeroes x str/bytes), kmers_and_hashes (force on/off), add_sequence (whole, force on/off, two pieces "
-        "overlapping by k-1, reverse complement or re-cased copy, record by record), add_protein; the oracle recomputes every "
+        "overlapping by k-1, reverse complement or re-cased copy, record by record), add_protein, and seq_to_hashes of the reverse complement under the code's complement table (strand symmetry for any ASCII letters); the oracle recomputes every "
         "observation from the statement (own MurmurHash3, own windows, own genetic code / Dayhoff / HP classes) and checks the "
         "rc / case / pieces relations between ops; non-trivial = some op returned >= 3 hashes; distinct = distinct op lists")
 
